@@ -144,7 +144,7 @@ func corpus() []interface{} {
 }
 
 func generate(rng *rand.Rand, tier string) []interface{} {
-	nscript, nrace, nserver := 36, 8, 6
+	nscript, nrace, nserver := 64, 12, 8
 	if tier != "quick" {
 		nscript, nrace, nserver = 600, 120, 60
 	}
